@@ -58,8 +58,14 @@ def factorFp (p : Nat) (f : FPoly) : Option (List (FPoly × Nat)) :=
   let d := fpDeg p g
   if p ^ (d / 2) > 60000 then none else some (factorLoop p (d + 1) 1 g [])
 
+/-- irreducibility over F_p by exhaustive trial division: positive degree and no monic divisor of degree 1 … deg/2
+    (`none` if the search space exceeds the cap); proved sound in `Props/C05FpIrr` -/
 def irreducibleFp (p : Nat) (f : FPoly) : Option Bool :=
-  (factorFp p f).map (fun l => l.length = 1 ∧ (l.head?.map (·.2)) = some 1)
+  let g := fpMonic p f
+  let d := fpDeg p g
+  if p ^ (d / 2) > 60000 then none
+  else some (decide (d ≥ 1) && (List.range (d / 2)).all (fun k =>
+    (monics p (k + 1)).all (fun h => !(fpIsZero p (FPoly.divMod p g h).2))))
 
 /-- canonical comparison of factor lists -/
 def sameFactorsFp (p : Nat) (a b : List (FPoly × Nat)) : Bool :=
